@@ -9,6 +9,7 @@ import sympy as sp
 from .. import schemas as SC
 from .. import terms as TM
 from ..absint import Interp, Unsupported
+from .common import public_functional
 from ..core import AnalysisError, Report, Repo
 from ..optable import FUNCTIONAL, summarise
 from ..schemas import O, P, dim
@@ -39,7 +40,7 @@ def check(report: Report, repo: Repo) -> None:
     report.assumptions += ["Adam/AdamW first step with eps=0 moves each weight by lr_eff*sign(g)", "+-1 inputs: each of the n_in products contributes |dw| to the output change with aligned sign"]
 
     def opq(f):
-        return (isinstance(f, FuncV) and (f.module.rel == FUNCTIONAL or f.qualname == "Parameter")) 
+        return (public_functional(f) or (isinstance(f, FuncV) and f.qualname == "Parameter")) 
 
     it = Interp(repo, opaque=opq)
     ito = Interp(repo)
